@@ -483,7 +483,16 @@ pub fn prefilter_lists(rg: &mut StdRng, which: usize) -> Pats {
     let mut word = |rg: &mut StdRng, lo: usize, hi: usize| -> Vec<u8> {
         (0..rg.gen_range(lo..=hi)).map(|_| letters[rg.gen_range(0..letters.len())]).collect()
     };
-    match which % 8 {
+    match which % 9 {
+        // exactly two distinct first bytes, one a letter and one not (three start bytes once both
+        // cases count), length >= 2, few patterns: where a case-insensitive searcher sits right at the
+        // thresholds between the byte prefilters and the packed one
+        8 => {
+            let l = letters[rg.gen_range(0..letters.len())];
+            let d = [b'1', b'#', b'-', b'@', b'['][rg.gen_range(0..5)];
+            let n = rg.gen_range(2..=6);
+            (0..n).map(|i| { let mut w = vec![if i % 2 == 0 { l } else { d }]; w.extend(word(rg, 1, 4)); w }).collect()
+        }
         // packed-friendly list (>= 4 first bytes, min length >= 2) with NESTED patterns that all
         // stay in the automaton: a long pattern FIRST, then a proper prefix of it and an infix of
         // it (an occurrence of the long one contains occurrences of the others that end earlier)
@@ -1155,12 +1164,12 @@ pub fn run(out_prefix: &str, shards: usize, family: &str, seed: u64, scale: usiz
             // contexts 2k: random lists; contexts 2k+1: built to carry a prefilter - every variant
             // of prefilter_lists under every match kind (packed/Teddy exists for the leftmost
             // kinds only and needs spans longer than a vector; shorter spans go to Rabin-Karp)
-            let npre = 8 * f.mks.len() * scale;
+            let npre = 9 * f.mks.len() * scale;
             for i in 0..(2 * npre.max(15 * scale)) {
                 if i % 2 == 0 && i / 2 >= 15 * scale { continue; }
                 if i % 2 == 1 && i / 2 >= npre { continue; }
                 let pats = if i % 2 == 0 { gen::random_pats(&mut rg, 6, 6) } else { prefilter_lists(&mut rg, i / 2) };
-                let mk = if i % 2 == 1 { f.mks[(i / 2 / 8) % f.mks.len()] } else { f.mks[rg.gen_range(0..f.mks.len())] };
+                let mk = if i % 2 == 1 { f.mks[(i / 2 / 9) % f.mks.len()] } else { f.mks[rg.gen_range(0..f.mks.len())] };
                 let mut c = Ctx::new(&pats, mk, REPRS_ALL[i % REPRS_ALL.len()]);
                 c.ci = i % 2 == 0 && rg.gen_range(0..3) == 0;
                 c.pre = i % 2 == 1 || rg.gen_bool(0.7);
@@ -1273,11 +1282,11 @@ pub fn run(out_prefix: &str, shards: usize, family: &str, seed: u64, scale: usiz
             // case-insensitive searchers whose prefilter is a rare-byte / start-byte
             // prefilter over letters written in either case
             for i in 0..(18 * scale) {
-                let pats: Pats = prefilter_lists(&mut rg, [2usize, 3, 5, 1][i % 4])
+                let pats: Pats = prefilter_lists(&mut rg, [2usize, 8, 3, 5, 1, 8][i % 6])
                     .into_iter()
                     .map(|p| p.iter().map(|&b| if rg.gen_bool(0.3) && b.is_ascii_lowercase() { b.to_ascii_uppercase() } else { b }).collect())
                     .collect();
-                let mk = f.mks[rg.gen_range(0..f.mks.len())];
+                let mk = f.mks[i % f.mks.len()];
                 for repr in ["nc", "top-auto", "dfa", "c"] {
                     let mut c = Ctx::new(&pats, mk, repr);
                     c.ci = true;
